@@ -204,3 +204,156 @@ Section StrictAttr.
     eexists. split; [reflexivity|]. apply root_cause_add_context.
   Qed.
 End StrictAttr.
+
+(* ================= lazy: evaluation of the deferred attribute statements ================= *)
+Section LazyAttr.
+  Variable t : tree.
+  Variable fl : file.
+  Variable call : ident -> graph -> list value -> res (value * graph).
+  Notation eval_lstmt' := (eval_lstmt t fl call).
+  Notation eval_lv' := (eval_lv t fl call).
+  Notation eval_as_gnode' := (eval_as_gnode t fl call).
+
+  (* the error of a conflict: DuplicateAttribute inside the statement context(s): the statement that set the old
+     value in this run, if any (none if the attribute was on the graph passed to execute_into), then this statement *)
+  Definition dup_attr_error (prev : option stmt_ctx) (dbg : stmt_ctx) : exec_error :=
+    EInContext (CtxStmts (match prev with Some p => [p; dbg] | None => [dbg] end)) EDuplicateAttribute.
+
+  Lemma prev_insert_eq k dbg s p : exists o s', prev_insert k dbg s p = Ok (o, s', p) /\ l_graph s' = l_graph s.
+  Proof. unfold prev_insert, bind, get_state, set_lprev, Lazy.upd, modify, ret. eexists. eexists. split; reflexivity. Qed.
+
+  Lemma lattr_node_add_conflict n k v prev dbg s p old :
+    target_attr (l_graph s) (TNode n) k = Some old -> old <> v ->
+    lattr_node_add n k v prev dbg s p = Err (dup_attr_error prev dbg).
+  Proof.
+    unfold target_attr, target_attrs, lattr_node_add, bind, get_state. intros H Hne.
+    destruct (gnode_at (l_graph s) n) as [nd|]; [|discriminate].
+    destruct (attrs_add_conflict _ _ _ _ H Hne) as [m' ->]. reflexivity.
+  Qed.
+  Lemma lattr_node_add_equal n k v prev dbg s p :
+    target_attr (l_graph s) (TNode n) k = Some v ->
+    exists s', lattr_node_add n k v prev dbg s p = Ok (tt, s', p) /\ l_graph s' = l_graph s.
+  Proof.
+    unfold target_attr, target_attrs, lattr_node_add, bind, get_state. intros H.
+    destruct (gnode_at (l_graph s) n) as [nd|] eqn:En; [|discriminate].
+    rewrite (attrs_add_equal _ _ _ H). unfold set_lgraph, Lazy.upd, modify.
+    rewrite (graph_update_same _ _ _ nd En (with_attrs_same nd)). eexists. split; reflexivity.
+  Qed.
+  Lemma lattr_edge_add_conflict a b k v prev dbg s p old :
+    target_attr (l_graph s) (TEdge a b) k = Some old -> old <> v ->
+    lattr_edge_add a b k v prev dbg s p = Err (dup_attr_error prev dbg).
+  Proof.
+    unfold target_attr, target_attrs, lattr_edge_add, bind, get_state. intros H Hne.
+    destruct (gnode_at (l_graph s) a) as [nd|]; [|discriminate]. destruct (edges_get b (g_edges nd)) as [m|]; [|discriminate].
+    destruct (attrs_add_conflict _ _ _ _ H Hne) as [m' ->]. reflexivity.
+  Qed.
+  Lemma lattr_edge_add_equal a b k v prev dbg s p :
+    target_attr (l_graph s) (TEdge a b) k = Some v ->
+    exists s', lattr_edge_add a b k v prev dbg s p = Ok (tt, s', p) /\ l_graph s' = l_graph s.
+  Proof.
+    unfold target_attr, target_attrs, lattr_edge_add, bind, get_state. intros H.
+    destruct (gnode_at (l_graph s) a) as [nd|] eqn:En; [|discriminate]. destruct (edges_get b (g_edges nd)) as [m|] eqn:Eb; [|discriminate].
+    rewrite (attrs_add_equal _ _ _ H). unfold set_lgraph, Lazy.upd, modify.
+    rewrite (edges_set_same _ _ _ Eb). rewrite (graph_update_same _ _ _ nd En (with_edges_same nd)). eexists. split; reflexivity.
+  Qed.
+  Lemma ledge_exists_true a b k s p x : target_attr (l_graph s) (TEdge a b) k = Some x -> ledge_exists a b s p = Ok (true, s, p).
+  Proof.
+    unfold target_attr, target_attrs, ledge_exists, bind, get_state, ret. intros H.
+    destruct (gnode_at (l_graph s) a) as [nd|]; [|discriminate]. destruct (edges_get b (g_edges nd)); [reflexivity|discriminate].
+  Qed.
+
+  (* the per-attribute step of eval_lstmt *)
+  Definition node_attr_step fuel n dbg : ident * lvalue -> M lstate unit := fun a =>
+    v <- eval_lv' fuel (snd a) ;; prev <- prev_insert (KNode n (fst a)) dbg ;; lattr_node_add n (fst a) v prev dbg.
+  Definition edge_attr_step fuel a b dbg : ident * lvalue -> M lstate unit := fun ak =>
+    v <- eval_lv' fuel (snd ak) ;;
+    ex <- ledge_exists a b ;;
+    if ex then prev <- prev_insert (KEdge a b (fst ak)) dbg ;; lattr_edge_add a b (fst ak) v prev dbg
+    else fail EUndefinedEdge.
+
+  Lemma lazy_attr_node_conflict fuel node pre k lv post dbg s p n s1 p1 s2 p2 v s3 p3 old :
+    snd (poll_step L_eval_stmt p) = false ->
+    eval_as_gnode' fuel node s (fst (poll_step L_eval_stmt p)) = Ok (n, s1, p1) ->
+    iterM (node_attr_step fuel n dbg) pre s1 p1 = Ok (tt, s2, p2) ->
+    eval_lv' fuel lv s2 p2 = Ok (v, s3, p3) ->
+    target_attr (l_graph s3) (TNode n) k = Some old -> old <> v ->
+    exists prev, eval_lstmt' fuel (LSAttrNode node (pre ++ (k, lv) :: post) dbg) s p = Err (dup_attr_error prev dbg).
+  Proof.
+    intros Hp En Hpre E Ht Hne. unfold eval_lstmt.
+    unfold bind at 1. unfold lpoll, poll. destruct (poll_step L_eval_stmt p) as [p0 c]. cbn [snd fst] in *. subst c.
+    unfold ctx_wrap at 1. unfold bind at 1. unfold ctx_wrap at 1. rewrite En.
+    fold (node_attr_step fuel n dbg). rewrite iterM_app. unfold bind at 1. rewrite Hpre. cbn [iterM]. unfold bind at 1.
+    unfold node_attr_step at 1. cbn [fst snd]. unfold bind at 1. rewrite E.
+    destruct (prev_insert_eq (KNode n k) dbg s3 p3) as (o & s4 & Epi & Hg). unfold bind at 1. rewrite Epi.
+    rewrite (lattr_node_add_conflict n k v o dbg s4 p3 old); [|rewrite Hg; exact Ht|exact Hne].
+    exists o. reflexivity.
+  Qed.
+  Lemma lazy_attr_node_equal fuel node k lv dbg s p n s1 p1 v s2 p2 :
+    snd (poll_step L_eval_stmt p) = false ->
+    eval_as_gnode' fuel node s (fst (poll_step L_eval_stmt p)) = Ok (n, s1, p1) ->
+    eval_lv' fuel lv s1 p1 = Ok (v, s2, p2) ->
+    target_attr (l_graph s2) (TNode n) k = Some v ->
+    exists s', eval_lstmt' fuel (LSAttrNode node [(k, lv)] dbg) s p = Ok (tt, s', p2) /\ l_graph s' = l_graph s2.
+  Proof.
+    intros Hp En E Ht. unfold eval_lstmt.
+    unfold bind at 1. unfold lpoll, poll. destruct (poll_step L_eval_stmt p) as [p0 c]. cbn [snd fst] in *. subst c.
+    unfold ctx_wrap at 1. unfold bind at 1. unfold ctx_wrap at 1. rewrite En.
+    cbn [iterM fst snd]. unfold bind at 1. unfold bind at 1. rewrite E.
+    destruct (prev_insert_eq (KNode n k) dbg s2 p2) as (o & s3 & Epi & Hg). unfold bind at 1. rewrite Epi.
+    destruct (lattr_node_add_equal n k v o dbg s3 p2) as (s4 & E4 & Hg4); [rewrite Hg; exact Ht|].
+    rewrite E4. exists s4. split; [reflexivity|congruence].
+  Qed.
+
+  Lemma lazy_attr_edge_conflict fuel src snk pre k lv post dbg s p a b sa pa s1 p1 s2 p2 v s3 p3 old :
+    snd (poll_step L_eval_stmt p) = false ->
+    eval_as_gnode' fuel src s (fst (poll_step L_eval_stmt p)) = Ok (a, sa, pa) ->
+    eval_as_gnode' fuel snk sa pa = Ok (b, s1, p1) ->
+    iterM (edge_attr_step fuel a b dbg) pre s1 p1 = Ok (tt, s2, p2) ->
+    eval_lv' fuel lv s2 p2 = Ok (v, s3, p3) ->
+    target_attr (l_graph s3) (TEdge a b) k = Some old -> old <> v ->
+    exists prev, eval_lstmt' fuel (LSAttrEdge src snk (pre ++ (k, lv) :: post) dbg) s p = Err (dup_attr_error prev dbg).
+  Proof.
+    intros Hp Ea Eb Hpre E Ht Hne. unfold eval_lstmt.
+    unfold bind at 1. unfold lpoll, poll. destruct (poll_step L_eval_stmt p) as [p0 c]. cbn [snd fst] in *. subst c.
+    unfold ctx_wrap at 1. unfold bind at 1. unfold ctx_wrap at 1. rewrite Ea.
+    unfold bind at 1. unfold ctx_wrap at 1. rewrite Eb.
+    fold (edge_attr_step fuel a b dbg). rewrite iterM_app. unfold bind at 1. rewrite Hpre. cbn [iterM]. unfold bind at 1.
+    unfold edge_attr_step at 1. cbn [fst snd]. unfold bind at 1. rewrite E.
+    unfold bind at 1. rewrite (ledge_exists_true a b k s3 p3 old Ht).
+    destruct (prev_insert_eq (KEdge a b k) dbg s3 p3) as (o & s4 & Epi & Hg). unfold bind at 1. rewrite Epi.
+    rewrite (lattr_edge_add_conflict a b k v o dbg s4 p3 old); [|rewrite Hg; exact Ht|exact Hne].
+    exists o. reflexivity.
+  Qed.
+  Lemma lazy_attr_edge_equal fuel src snk k lv dbg s p a b sa pa s1 p1 v s2 p2 :
+    snd (poll_step L_eval_stmt p) = false ->
+    eval_as_gnode' fuel src s (fst (poll_step L_eval_stmt p)) = Ok (a, sa, pa) ->
+    eval_as_gnode' fuel snk sa pa = Ok (b, s1, p1) ->
+    eval_lv' fuel lv s1 p1 = Ok (v, s2, p2) ->
+    target_attr (l_graph s2) (TEdge a b) k = Some v ->
+    exists s', eval_lstmt' fuel (LSAttrEdge src snk [(k, lv)] dbg) s p = Ok (tt, s', p2) /\ l_graph s' = l_graph s2.
+  Proof.
+    intros Hp Ea Eb E Ht. unfold eval_lstmt.
+    unfold bind at 1. unfold lpoll, poll. destruct (poll_step L_eval_stmt p) as [p0 c]. cbn [snd fst] in *. subst c.
+    unfold ctx_wrap at 1. unfold bind at 1. unfold ctx_wrap at 1. rewrite Ea.
+    unfold bind at 1. unfold ctx_wrap at 1. rewrite Eb.
+    cbn [iterM fst snd]. unfold bind at 1. unfold bind at 1. rewrite E.
+    unfold bind at 1. rewrite (ledge_exists_true a b k s2 p2 v Ht).
+    destruct (prev_insert_eq (KEdge a b k) dbg s2 p2) as (o & s3 & Epi & Hg). unfold bind at 1. rewrite Epi.
+    destruct (lattr_edge_add_equal a b k v o dbg s3 p2) as (s4 & E4 & Hg4); [rewrite Hg; exact Ht|].
+    rewrite E4. exists s4. split; [reflexivity|congruence].
+  Qed.
+
+  (* a failing deferred statement makes the evaluation phase fail with the same error: the evaluation phase runs the edge
+     statements, then the attribute statements, in the order they were recorded *)
+  Lemma evaluate_phase_attr_fails fuel s p s1 p1 apre x apost e :
+    iterM (eval_lstmt' fuel) (l_edges s) s p = Ok (tt, s1, p1) ->
+    l_attrs s = apre ++ x :: apost ->
+    forall s2 p2, iterM (eval_lstmt' fuel) apre s1 p1 = Ok (tt, s2, p2) ->
+    eval_lstmt' fuel x s2 p2 = Err e ->
+    evaluate_phase t fl call fuel s p = Err e.
+  Proof.
+    intros He Ha s2 p2 Hpre Hx. unfold evaluate_phase. unfold bind at 1. unfold get_state at 1.
+    unfold bind at 1. rewrite He. rewrite Ha. unfold bind at 1. rewrite iterM_app. unfold bind at 1. rewrite Hpre.
+    cbn [iterM]. unfold bind at 1. rewrite Hx. reflexivity.
+  Qed.
+End LazyAttr.
